@@ -223,6 +223,9 @@ def solveVerdict {n mb nx : Nat} (A : Mat Float n n) (s : State Float n n) (B : 
   match diagMinAbs Ur with
   | none => "-"
   | some dmin =>
+    -- the number the theorems call `threshold` (the generated rational, exact at `Rat` and at the
+    -- reals) must be the double the `Float` instantiation compares with
+    if toRat (threshold : Float) != (threshold : Rat) then "FAIL:threshold_value" else
     if dmin < toRat (threshold : Float) then
       (if impl == ["exc:zerodiv"] then "ok" else "FAIL:singular_raises")
     else if raised then "FAIL:solve_returns"
